@@ -7,6 +7,8 @@ pub const ALPHA: &[char] = &[
     'a', 'b', 'c', 'd', '1', '2', ' ', '\u{3000}', 'あ', '漢', 'é', '😀', 'z',
     // first UTF-8 byte 0xEF (the first byte of a byte-order mark)
     'Ｊ', 'ｱ',
+    // the last entries of the 65536-entry category table
+    '\u{FFFF}', '\u{FFFD}',
 ];
 
 #[derive(Clone, Debug)]
@@ -216,13 +218,13 @@ pub fn gen_chardef(rng: &mut Rng, cfg: &GenCfg) -> (String, Vec<CateSpec>, bool)
         }
     }
     let nranges = rng.below(6);
-    let pts: [u32; 10] = [0x0, 0x31, 0x32, 0x61, 0x62, 0x63, 0x64, 0xE9, 0x3042, 0x6F22];
+    let pts: [u32; 12] = [0x0, 0x31, 0x32, 0x61, 0x62, 0x63, 0x64, 0xE9, 0x3042, 0x6F22, 0xFFFC, 0xFFFF];
     for _ in 0..nranges {
         let a = *rng.pick(&pts);
         let line = if rng.chance(1, 2) {
             format!("0x{:04X}", a)
         } else {
-            let b = a + rng.below(4) as u32;
+            let b = (a + rng.below(4) as u32).min(0xFFFF);
             format!("0x{:04X}..0x{:04x}", a, b)
         };
         let pool = if cfg.space_pre { &non_space } else { &names };
@@ -283,8 +285,10 @@ pub fn gen_matrix(rng: &mut Rng, nr: usize, nl: usize, mag: i64) -> String {
 pub fn gen_bigram(rng: &mut Rng, nr: usize, nl: usize, k: usize, mag: i64) -> (String, String, String) {
     // feature vocabulary per position; some strings shared across positions
     let vocab = |rng: &mut Rng, pos: usize| -> String {
-        match rng.below(6) {
+        match rng.below(7) {
             0 => "*".to_string(),
+            // leading / trailing white space belongs to the feature string (bigram.cost lines are not trimmed)
+            6 => (*rng.pick(&[" w", "w ", "\u{3000}", " ", "w\u{3000}"])).to_string(),
             1 => format!("s{}", rng.below(2)),
             2 => format!("\"q,{}\"", rng.below(2)),
             _ => format!("p{}v{}", pos, rng.below(3)),
